@@ -157,6 +157,8 @@ func (m *stateManager) processEvent(event *discovery.Event) {
 		err = m.onDatabaseCfgDelete(event.Key)
 	case discovery.ShardAssignmentChanged:
 		err = m.onShardAssignmentChange(event.Key, event.Value)
+	case discovery.ShardAssignmentDeletion:
+		err = m.onShardAssignmentDelete(event.Key)
 	case discovery.NodeStartup:
 		err = m.onStorageNodeStartup(event.Key, event.Value)
 	case discovery.NodeFailure:
@@ -257,6 +259,24 @@ func (m *stateManager) onShardAssignmentChange(key string, data []byte) error {
 	m.shardAssignments[shardAssignment.Name] = shardAssignment
 
 	m.initializeShardState(m.storage, shardAssignment)
+	return m.syncState(m.storage.GetState())
+}
+
+// onShardAssignmentDelete triggers when shard assignment is deleted(database is dropped).
+// The watch of shard assignment isn't ordered with the watch of database config, a shard assignment change
+// which is delivered after the database config deletion brings the dropped database back into the state.
+func (m *stateManager) onShardAssignmentDelete(key string) error {
+	m.logger.Info("database's shard assignment is deleted",
+		logger.String("key", key))
+	name := strings.TrimPrefix(key, constants.GetDatabaseAssignPath(""))
+	if _, ok := m.databases[name]; ok {
+		// database exists(maybe created again), its shard assignment is maintained by database config change.
+		return nil
+	}
+	delete(m.shardAssignments, name)
+
+	// remove database state from storage cluster
+	m.storage.GetState().DropDatabase(name)
 	return m.syncState(m.storage.GetState())
 }
 
